@@ -1,4 +1,5 @@
 import MpsProofs.Handler
+import MpsProps.HandlerSrc
 import MpsProofs.TwoParty
 import MpsProofs.ReplayOrder
 import MpsGen.Session
